@@ -652,6 +652,10 @@ func (r *c15Runner) check(c *core.Ctx, family, kind, shape string, prog []*sm.St
 	}
 
 	sig, msg := r.judge(c, fam, kind, prog, paths, want)
+	for _, d := range poolDoubleReleases() {
+		c.Violate("scope-pool:double-release:"+d, fmt.Sprintf("%s, %s: a scope (or another pooled object) was put into its pool while it was already there (%s): two blocks that are alive at the same time can be handed the same maps\n%s", family, shape, d, sm.Prologue+sm.Render(prog)),
+			c15Payload{Family: family, Kind: kind, Shape: shape, Prog: prog, SQL: sm.Prologue + sm.Render(prog)})
+	}
 	if sig != "" {
 		if !viaText {
 			sql += sm.Render(prog)
@@ -1075,6 +1079,8 @@ func (r *c15Runner) runSkeletons(c *core.Ctx, idx *int64) bool {
 // ---- entry points ---------------------------------------------------------------------------------------
 
 func c15Run(c *core.Ctx) {
+	poolTrack(true)
+	defer poolTrack(false)
 	r := newC15Runner()
 	defer r.close()
 	var idx int64
